@@ -227,6 +227,31 @@ theorem ops_of_cmpKey_error {a b : Key} {e : PyErr} (h : cmpKey a b = .error e) 
   have heq : keyEq a b = .error e := by simp [keyEq, h, Except.map]
   simp [keyLe, keyGt, keyGe, keyNe, hlt, heq, bind, Except.bind]
 
+/-- a component comparison either answers or raises `TypeError` -/
+theorem cmpKV_ok_or_type (a b : KV) : (∃ d, cmpKV a b = .ok d) ∨ cmpKV a b = .error .type := by
+  by_cases h : KV.Compat a b
+  · exact .inl ⟨_, cmpKV_eq_cmp h⟩
+  · exact .inr (cmpKV_incompat h)
+
+/-- the comparison of two keys raises nothing but `TypeError` -/
+theorem cmpKey_error_kind {a b : Key} {e : PyErr} (h : cmpKey a b = .error e) : e = .type := by
+  unfold cmpKey at h
+  rcases cmpKV_ok_or_type a.tumor b.tumor with ⟨d1, h1⟩ | h1 <;>
+  rcases cmpKV_ok_or_type a.normal b.normal with ⟨d2, h2⟩ | h2 <;>
+  rcases cmpKV_ok_or_type a.chr b.chr with ⟨d3, h3⟩ | h3 <;>
+  rcases cmpKV_ok_or_type a.start b.start with ⟨d4, h4⟩ | h4 <;>
+  rcases cmpKV_ok_or_type a.stop b.stop with ⟨d5, h5⟩ | h5 <;>
+  (rw [h1, h2, h3, h4, h5] at h
+   simp only [bind, Except.bind, pure, Except.pure] at h
+   repeat' split at h
+   all_goals first | (cases h; rfl) | cases h | contradiction)
+
+theorem keyLt_error_kind {a b : Key} {e : PyErr} (h : keyLt a b = .error e) : e = .type := by
+  unfold keyLt at h
+  cases hc : cmpKey a b with
+  | error e' => rw [hc] at h; cases h; exact cmpKey_error_kind hc
+  | ok d => rw [hc] at h; cases h
+
 /-! ### well-formed records and the kinds of their keys -/
 
 /-- `None` or a text -/
@@ -282,7 +307,7 @@ theorem posInt_of_posOk {v : KV} (h : v.posOk = true) : posInt v = .ok (KV.ofInt
     | none => simp [hp] at h
     | some i => rfl
 
-theorem posInt_error_of_not_posOk {v : KV} (h : v.posOk = false) : posInt v = .error .value := by
+theorem posInt_error_of_not_posOk {v : KV} (h : v.posOk = false) : posInt v = .error .key := by
   cases v with
   | none => simp [KV.posOk] at h
   | int i => simp [KV.posOk] at h
@@ -414,6 +439,158 @@ theorem mkKey_ok_iff {o : Order} {cs : List Text} {l : Loc} {k : Key} (hwf : l.W
       exact ⟨hc, by cases h; rfl⟩
     · rw [mkKey_eq_error hwf.1 hne hm] at h; cases h
   · rintro ⟨hc, rfl⟩; exact mkKey_eq_ok hwf hc
+
+/-! ### which exceptions `mkKey` raises, and exactly when
+
+  `KeyError`: the record cannot be keyed (a coordinate column is missing, or a position is a text
+  `int()` cannot read).  `ValueError`: a contig list is given and does not contain the chromosome.
+  The contig lookup comes before the positions, so a record with both defects is a `ValueError`. -/
+
+/-- a position `int()` cannot read is a `KeyError` (never a `ValueError`) -/
+theorem posInt_error {v : KV} {e : PyErr} (h : posInt v = .error e) : e = .key := by
+  unfold posInt at h
+  split at h
+  · split at h <;> cases h; rfl
+  · cases h
+
+theorem posOk_of_posInt_ok {v k : KV} (h : posInt v = .ok k) : v.posOk = true := by
+  cases v with
+  | str s =>
+    simp only [KV.posOk]
+    cases hp : pyInt s with
+    | none => simp [posInt, hp] at h
+    | some i => rfl
+  | _ => rfl
+
+theorem posInt_error_iff {v : KV} {e : PyErr} : posInt v = .error e ↔ v.posOk = false ∧ e = .key := by
+  constructor
+  · intro h
+    refine ⟨?_, posInt_error h⟩
+    cases hp : v.posOk with
+    | false => rfl
+    | true => rw [posInt_of_posOk hp] at h; cases h
+  · rintro ⟨h, rfl⟩; exact posInt_error_of_not_posOk h
+
+theorem chrStep_error_kind {cs : List Text} {c : KV} {e : PyErr} (h : chrStep cs c = .error e) : e = .value := by
+  unfold chrStep at h
+  split at h
+  · cases h
+  · split at h
+    · split at h <;> cases h; rfl
+    · cases h; rfl
+
+/-- `sort_key` raises only `KeyError` (the record cannot be keyed) or `ValueError` (contig list) -/
+theorem mkKey_error_kind {o : Order} {cs : List Text} {l : Loc} {e : PyErr} (h : mkKey o cs l = .error e) :
+    e = .key ∨ e = .value := by
+  cases hc : l.hasCoords with
+  | false => rw [mkKey_no_coords hc] at h; cases h; exact .inl rfl
+  | true =>
+    rw [mkKey_unfold hc] at h
+    cases h1 : chrStep cs (chrText l.chr) with
+    | error e1 => rw [h1] at h; cases h; exact .inr (chrStep_error_kind h1)
+    | ok c =>
+      cases h2 : posInt l.start with
+      | error e2 => rw [h1, h2] at h; cases h; exact .inl (posInt_error h2)
+      | ok s =>
+        cases h3 : posInt l.stop with
+        | error e3 => rw [h1, h2, h3] at h; cases h; exact .inl (posInt_error h3)
+        | ok t => rw [h1, h2, h3] at h; cases o <;> cases h
+
+/-- a record with its coordinate columns and a keyable chromosome, one of whose positions is a
+    text that is not a number, cannot be keyed: `KeyError` -/
+theorem mkKey_bad_position {o : Order} {cs : List Text} {l : Loc} (h0 : l.hasCoords = true)
+    (hc : l.chrOk cs) (hp : l.start.posOk = false ∨ l.stop.posOk = false) :
+    mkKey o cs l = .error .key := by
+  rw [mkKey_unfold h0, chrStep_ok hc]
+  cases hs : l.start.posOk with
+  | false => rw [posInt_error_of_not_posOk hs]; rfl
+  | true =>
+    have he : l.stop.posOk = false := by rcases hp with h | h; · rw [hs] at h; cases h
+                                         · exact h
+    rw [posInt_of_posOk hs, posInt_error_of_not_posOk he]; rfl
+
+/-- the complete case analysis of `mkKey`, for EVERY record (no well-formedness hypothesis) -/
+theorem mkKey_cases (o : Order) (cs : List Text) (l : Loc) :
+    (l.hasCoords = false ∧ mkKey o cs l = .error .key) ∨
+    (l.hasCoords = true ∧ cs ≠ [] ∧ (∀ s, l.chrName = some s → s ∉ cs) ∧ mkKey o cs l = .error .value) ∨
+    (l.hasCoords = true ∧ l.chrOk cs ∧ (l.start.posOk = false ∨ l.stop.posOk = false) ∧
+      mkKey o cs l = .error .key) ∨
+    (l.hasCoords = true ∧ l.chrOk cs ∧ l.start.posOk = true ∧ l.stop.posOk = true ∧
+      mkKey o cs l = .ok (l.key o cs)) := by
+  cases h0 : l.hasCoords with
+  | false => exact .inl ⟨rfl, mkKey_no_coords h0⟩
+  | true =>
+    rcases chrOk_or_missing cs l with hc | ⟨hne, hm⟩
+    · cases hs : l.start.posOk with
+      | false => exact .inr (.inr (.inl ⟨rfl, hc, .inl rfl, mkKey_bad_position h0 hc (.inl hs)⟩))
+      | true =>
+        cases he : l.stop.posOk with
+        | false => exact .inr (.inr (.inl ⟨rfl, hc, .inr rfl, mkKey_bad_position h0 hc (.inr he)⟩))
+        | true =>
+          refine .inr (.inr (.inr ⟨rfl, hc, rfl, rfl, ?_⟩))
+          rw [mkKey_unfold h0, chrStep_ok hc, posInt_of_posOk hs, posInt_of_posOk he]
+          cases o <;> rfl
+    · exact .inr (.inl ⟨rfl, hne, hm, mkKey_eq_error h0 hne hm⟩)
+
+theorem chrOk_not_missing {cs : List Text} {l : Loc} (hc : l.chrOk cs)
+    (hne : cs ≠ []) (hm : ∀ s, l.chrName = some s → s ∉ cs) : False := by
+  rcases hc with h | ⟨s, hs, hmem⟩
+  · exact hne h
+  · exact hm s hs hmem
+
+/-- `ValueError` from the key function: EXACTLY a chromosome missing from a non-empty contig list
+    (on a record that has its coordinate columns); the positions play no part -/
+theorem mkKey_valueError_iff {o : Order} {cs : List Text} {l : Loc} :
+    mkKey o cs l = .error .value ↔
+      l.hasCoords = true ∧ cs ≠ [] ∧ ∀ s, l.chrName = some s → s ∉ cs := by
+  constructor
+  · intro h
+    rcases mkKey_cases o cs l with ⟨_, h'⟩ | ⟨h0, hne, hm, _⟩ | ⟨_, _, _, h'⟩ | ⟨_, _, _, _, h'⟩
+    · rw [h'] at h; cases h
+    · exact ⟨h0, hne, hm⟩
+    · rw [h'] at h; cases h
+    · rw [h'] at h; cases h
+  · rintro ⟨h0, hne, hm⟩; exact mkKey_eq_error h0 hne hm
+
+/-- `KeyError` from the key function: EXACTLY the records that cannot be keyed — a coordinate
+    column is missing, or (the chromosome being keyable) a position is a text that is not a number -/
+theorem mkKey_keyError_iff {o : Order} {cs : List Text} {l : Loc} :
+    mkKey o cs l = .error .key ↔
+      l.hasCoords = false ∨ (l.chrOk cs ∧ (l.start.posOk = false ∨ l.stop.posOk = false)) := by
+  constructor
+  · intro h
+    rcases mkKey_cases o cs l with ⟨h0, _⟩ | ⟨_, _, _, h'⟩ | ⟨_, hc, hp, _⟩ | ⟨_, _, _, _, h'⟩
+    · exact .inl h0
+    · rw [h'] at h; cases h
+    · exact .inr ⟨hc, hp⟩
+    · rw [h'] at h; cases h
+  · rintro (h0 | ⟨hc, hp⟩)
+    · exact mkKey_no_coords h0
+    · cases h0 : l.hasCoords with
+      | false => exact mkKey_no_coords h0
+      | true => exact mkKey_bad_position h0 hc hp
+
+/-- `mkKey` succeeds EXACTLY on the well-formed-for-keying records whose chromosome can be keyed
+    (no hypothesis on the barcodes: they are copied, not read) -/
+theorem mkKey_ok_iff' {o : Order} {cs : List Text} {l : Loc} {k : Key} :
+    mkKey o cs l = .ok k ↔
+      l.hasCoords = true ∧ l.chrOk cs ∧ l.start.posOk = true ∧ l.stop.posOk = true ∧
+        k = l.key o cs := by
+  constructor
+  · intro h
+    rcases mkKey_cases o cs l with ⟨_, h'⟩ | ⟨_, _, _, h'⟩ | ⟨_, _, _, h'⟩ | ⟨h0, hc, hs, he, h'⟩
+    · rw [h'] at h; cases h
+    · rw [h'] at h; cases h
+    · rw [h'] at h; cases h
+    · rw [h'] at h; cases h; exact ⟨h0, hc, hs, he, rfl⟩
+  · rintro ⟨h0, hc, hs, he, rfl⟩
+    rcases mkKey_cases o cs l with ⟨h0', _⟩ | ⟨_, hne, hm, _⟩ | ⟨_, _, hp, _⟩ | ⟨_, _, _, _, h'⟩
+    · rw [h0] at h0'; cases h0'
+    · exact (chrOk_not_missing hc hne hm).elim
+    · rcases hp with hp | hp
+      · rw [hs] at hp; cases hp
+      · rw [he] at hp; cases hp
+    · exact h'
 
 /-- The kind invariant of keys: barcodes are `None`/text, the chromosome is `None`/text without
     a contig list (`ranked = false`) and an integer rank with one, positions are `None`/integer. -/
@@ -710,8 +887,136 @@ theorem checkAll_fst_prefix (c : Checker) (rs : List Loc) : (checkAll c rs).1 <+
     obtain ⟨r, rest, h1, _⟩ := checkAll_error_split c rs e h
     exact ⟨r :: rest, h1.symm⟩
 
+/-! #### un-keyable records (`KeyError` from the key function) are skipped -/
+
+/-- the record cannot be keyed: its key function raises `KeyError` (a coordinate column is
+    missing, or a position is a text that is not a number) -/
+def Loc.unkeyable (o : Order) (cs : List Text) (l : Loc) : Bool :=
+  match mkKey o cs l with
+  | .error .key => true
+  | _ => false
+
+theorem Loc.unkeyable_iff {o : Order} {cs : List Text} {l : Loc} :
+    l.unkeyable o cs = true ↔ mkKey o cs l = .error .key := by
+  unfold Loc.unkeyable
+  split
+  · rename_i h; simp [h]
+  · rename_i h
+    constructor
+    · intro h'; cases h'
+    · intro h'; exact (h h').elim
+
+theorem Loc.unkeyable_false_iff {o : Order} {cs : List Text} {l : Loc} :
+    l.unkeyable o cs = false ↔ mkKey o cs l ≠ .error .key := by
+  rw [Ne, ← Loc.unkeyable_iff (o := o) (cs := cs) (l := l)]; cases l.unkeyable o cs <;> simp
+
+/-- which records are un-keyable, on their own columns -/
+theorem Loc.unkeyable_iff_cols {o : Order} {cs : List Text} {l : Loc} :
+    l.unkeyable o cs = true ↔
+      l.hasCoords = false ∨ (l.chrOk cs ∧ (l.start.posOk = false ∨ l.stop.posOk = false)) := by
+  rw [Loc.unkeyable_iff, mkKey_keyError_iff]
+
+theorem Loc.unkeyable_of_no_coords {o : Order} {cs : List Text} {l : Loc} (h : l.hasCoords = false) :
+    l.unkeyable o cs = true := Loc.unkeyable_iff.2 (mkKey_no_coords h)
+
+/-- an un-keyable record is skipped: the checker is left exactly as it was -/
+theorem add_skip_unkeyable {c : Checker} {r : Loc} (hs : c.order.sortable = true)
+    (h : mkKey c.order c.contigs r = .error .key) : c.add r = .ok c := by
+  simp [Checker.add, hs, h]
+
+/-- ... and ONLY an un-keyable record is: when `add` of a sortable order succeeds on a record
+    whose key function does not raise `KeyError`, the record is remembered -/
+theorem add_ok_of_keyable {c c' : Checker} {r : Loc} (hs : c.order.sortable = true)
+    (h : mkKey c.order c.contigs r ≠ .error .key) (ha : c.add r = .ok c') :
+    c' = { c with last := some r } := by
+  unfold Checker.add at ha
+  simp only [hs, Bool.not_true, Bool.false_eq_true, if_false] at ha
+  split at ha
+  · rename_i hk; exact (h hk).elim
+  · cases ha
+  · split at ha
+    · cases ha; rfl
+    · split at ha
+      · cases ha
+      · split at ha
+        · cases ha
+        · cases ha
+        · cases ha; rfl
+
+/-- an un-keyable record never makes `add` fail -/
+theorem add_unkeyable_ok {c : Checker} {r : Loc} (h : mkKey c.order c.contigs r = .error .key) :
+    ∃ c', c.add r = .ok c' := by
+  cases hs : c.order.sortable with
+  | false => exact ⟨_, add_unsortable r hs⟩
+  | true => exact ⟨_, add_skip_unkeyable hs h⟩
+
+/-- `add` never changes the order or the contig list of the checker -/
+theorem add_order_contigs {c c' : Checker} {r : Loc} (ha : c.add r = .ok c') :
+    c'.order = c.order ∧ c'.contigs = c.contigs := by
+  unfold Checker.add at ha
+  repeat' split at ha
+  all_goals first | (cases ha; exact ⟨rfl, rfl⟩) | cases ha
+
+/-- after an error the next input record is the offending one, the order is sortable, and the
+    offending record is NOT an un-keyable one (those are skipped) -/
+theorem checkAll_error_split_keyable (c : Checker) (rs : List Loc) (e : PyErr)
+    (h : (checkAll c rs).2 = some e) :
+    ∃ r rest, rs = (checkAll c rs).1 ++ r :: rest ∧ c.order.sortable = true ∧
+      mkKey c.order c.contigs r ≠ .error .key := by
+  induction rs generalizing c with
+  | nil => simp [checkAll] at h
+  | cons r rs ih =>
+    cases ha : c.add r with
+    | error e' =>
+      rw [checkAll_cons_error rs ha]
+      refine ⟨r, rs, rfl, ?_, ?_⟩
+      · cases hs : c.order.sortable with
+        | true => rfl
+        | false => rw [add_unsortable r hs] at ha; cases ha
+      · intro hk
+        obtain ⟨c', hc'⟩ := add_unkeyable_ok (c := c) hk; rw [hc'] at ha; cases ha
+    | ok c' =>
+      rw [checkAll_cons_ok rs ha] at h ⊢
+      obtain ⟨r', rest, h1, h2, h3⟩ := ih c' h
+      obtain ⟨ho, hcs⟩ := add_order_contigs ha
+      rw [ho] at h2; rw [ho, hcs] at h3
+      exact ⟨r', rest, by simp only [List.cons_append]; rw [← h1], h2, h3⟩
+
+/-- the checker's verdict is the one it gives on the records that can be keyed, and what it
+    yields restricts to what it yields there (sortable order) -/
+theorem checkAll_filter_keyable (c : Checker) (hs : c.order.sortable = true) (rs : List Loc) :
+    (checkAll c rs).2 = (checkAll c (rs.filter (fun r => !r.unkeyable c.order c.contigs))).2 ∧
+    (checkAll c rs).1.filter (fun r => !r.unkeyable c.order c.contigs) =
+      (checkAll c (rs.filter (fun r => !r.unkeyable c.order c.contigs))).1 := by
+  induction rs generalizing c with
+  | nil => exact ⟨rfl, rfl⟩
+  | cons r rs ih =>
+    cases hc : r.unkeyable c.order c.contigs with
+    | true =>
+      rw [checkAll_cons_ok rs (add_skip_unkeyable hs (Loc.unkeyable_iff.1 hc)),
+        List.filter_cons_of_neg (by simp [hc])]
+      simp only [List.filter_cons_of_neg
+        (p := fun r => !r.unkeyable c.order c.contigs) (a := r) (by simp [hc])]
+      exact ih c hs
+    | false =>
+      rw [List.filter_cons_of_pos (by simp [hc])]
+      cases ha : c.add r with
+      | error e =>
+        rw [checkAll_cons_error _ ha, checkAll_cons_error _ ha]
+        exact ⟨rfl, rfl⟩
+      | ok c' =>
+        obtain ⟨ho, hcs⟩ := add_order_contigs ha
+        have hs' : c'.order.sortable = true := by rw [ho]; exact hs
+        rw [checkAll_cons_ok _ ha, checkAll_cons_ok _ ha]
+        obtain ⟨h1, h2⟩ := ih c' hs'
+        rw [ho, hcs] at h1 h2
+        refine ⟨h1, ?_⟩
+        simp only [List.filter_cons_of_pos
+          (p := fun r => !r.unkeyable c.order c.contigs) (a := r) (by simp [hc])]
+        rw [h2]
+
 /-- `rs` are keyable, with keys `ks` (in order) -/
-def Keyed (o : Order) (cs : List Text) : List Loc → List Key → Prop
+def Keyed(o : Order) (cs : List Text) : List Loc → List Key → Prop
   | [], [] => True
   | r :: rs, k :: ks => mkKey o cs r = .ok k ∧ Keyed o cs rs ks
   | _, _ => False
@@ -875,5 +1180,139 @@ theorem checkAll_some_descent {c : Checker} {l : Loc} {lk : Key} {rs : List Loc}
           hs rfl hk.1 hk.2 (by simpa using hj) hchain.2 (by simpa using hdesc)
         rw [this]
         rfl
+
+/-! ### why the checker raises `ValueError`: a chromosome missing from the contig list, or a record
+    out of order — nothing else (a position text that is not a number is skipped) -/
+
+/-- the record can be keyed -/
+def Loc.keyable (o : Order) (cs : List Text) (l : Loc) : Bool :=
+  match mkKey o cs l with
+  | .ok _ => true
+  | .error _ => false
+
+theorem Loc.keyable_iff {o : Order} {cs : List Text} {l : Loc} :
+    l.keyable o cs = true ↔ ∃ k, mkKey o cs l = .ok k := by
+  unfold Loc.keyable
+  cases mkKey o cs l <;> simp
+
+/-- the last record of a list that can be keyed: what a checker that started empty remembers
+    after accepting the list (sortable order) -/
+def lastKeyed (o : Order) (cs : List Text) (ls : List Loc) : Option Loc :=
+  (ls.filter (fun l => l.keyable o cs)).getLast?
+
+theorem lastKeyed_append_singleton (o : Order) (cs : List Text) (ls : List Loc) (l : Loc) :
+    lastKeyed o cs (ls ++ [l]) = if l.keyable o cs then some l else lastKeyed o cs ls := by
+  unfold lastKeyed
+  rw [List.filter_append]
+  cases h : l.keyable o cs <;> simp [h]
+
+/-- the ordering error: the record and the remembered record can both be keyed, and the record's
+    key is smaller -/
+def Checker.OutOfOrder (c : Checker) (l : Loc) : Prop :=
+  ∃ k l0 lk, mkKey c.order c.contigs l = .ok k ∧ c.last = some l0 ∧
+    mkKey c.order c.contigs l0 = .ok lk ∧ keyLt k lk = .ok true
+
+/-- what a checker of a sortable order remembers can be keyed -/
+def Checker.LastKeyed (c : Checker) : Prop :=
+  c.order.sortable = true → ∀ l, c.last = some l → ∃ lk, mkKey c.order c.contigs l = .ok lk
+
+theorem Checker.lastKeyed_of_none {c : Checker} (h : c.last = none) : c.LastKeyed := by
+  intro _ l hl; rw [h] at hl; cases hl
+
+/-- the result of a successful `add`, for a sortable order: the record is remembered iff it can be
+    keyed; an un-keyable record leaves the checker as it was -/
+theorem add_ok_sortable {c c' : Checker} {r : Loc} (hs : c.order.sortable = true)
+    (ha : c.add r = .ok c') :
+    (r.keyable c.order c.contigs = true ∧ c' = { c with last := some r }) ∨
+    (r.unkeyable c.order c.contigs = true ∧ c' = c) := by
+  cases hu : r.unkeyable c.order c.contigs with
+  | true =>
+    rw [add_skip_unkeyable hs (Loc.unkeyable_iff.1 hu)] at ha
+    cases ha; exact .inr ⟨rfl, rfl⟩
+  | false =>
+    have hne := Loc.unkeyable_false_iff.1 hu
+    refine .inl ⟨?_, add_ok_of_keyable hs hne ha⟩
+    unfold Loc.keyable
+    cases hk : mkKey c.order c.contigs r with
+    | ok k => rfl
+    | error e =>
+      exfalso
+      unfold Checker.add at ha
+      simp only [hs, hk, Bool.not_true, Bool.false_eq_true, if_false] at ha
+      split at ha
+      · rename_i heq; cases heq; exact hne hk
+      · cases ha
+      · rename_i heq; cases heq
+
+theorem Checker.LastKeyed.add {c c' : Checker} {r : Loc} (hc : c.LastKeyed) (ha : c.add r = .ok c') :
+    c'.LastKeyed := by
+  obtain ⟨ho, hcs⟩ := add_order_contigs ha
+  intro hs' l hl
+  have hs : c.order.sortable = true := by rw [← ho]; exact hs'
+  rcases add_ok_sortable hs ha with ⟨hk, rfl⟩ | ⟨_, rfl⟩
+  · simp only [Option.some.injEq] at hl
+    subst hl
+    exact Loc.keyable_iff.1 hk
+  · exact hc hs l hl
+
+/-- **which `ValueError`s the checker raises.**  `checker.add(record)` raises `ValueError` iff the
+    order is sortable and either the record (which has its coordinate columns) has a chromosome
+    that a non-empty contig list does not contain, or the record is out of order -/
+theorem Checker.add_valueError_iff {c : Checker} {l : Loc} (hc : c.LastKeyed) :
+    c.add l = .error .value ↔
+      c.order.sortable = true ∧
+      ((l.hasCoords = true ∧ c.contigs ≠ [] ∧ ∀ s, l.chrName = some s → s ∉ c.contigs) ∨
+        c.OutOfOrder l) := by
+  constructor
+  · intro h
+    cases hs : c.order.sortable with
+    | false => rw [add_unsortable l hs] at h; cases h
+    | true =>
+      refine ⟨rfl, ?_⟩
+      cases hk : mkKey c.order c.contigs l with
+      | error e =>
+        have he : e = .value := by
+          unfold Checker.add at h
+          simp only [hs, hk, Bool.not_true, Bool.false_eq_true, if_false] at h
+          split at h
+          · cases h
+          · rename_i heq; cases heq; cases h; rfl
+          · rename_i heq; cases heq
+        subst he
+        exact .inl (mkKey_valueError_iff.1 hk)
+      | ok k =>
+        cases hl : c.last with
+        | none => rw [add_first hs hk hl] at h; cases h
+        | some l0 =>
+          obtain ⟨lk, hlk⟩ := hc hs l0 hl
+          rw [add_next hs hk hl hlk] at h
+          cases hlt : keyLt k lk with
+          | error e =>
+            rw [hlt] at h
+            simp only [Except.error.injEq] at h
+            have := keyLt_error_kind hlt
+            rw [h] at this; cases this
+          | ok b =>
+            cases b with
+            | true => exact .inr ⟨k, l0, lk, hk, hl, hlk, hlt⟩
+            | false => rw [hlt] at h; cases h
+  · rintro ⟨hs, hm | ⟨k, l0, lk, hk, hl, hlk, hlt⟩⟩
+    · have hk : mkKey c.order c.contigs l = .error .value := mkKey_valueError_iff.2 hm
+      simp [Checker.add, hs, hk]
+    · rw [add_next hs hk hl hlk, hlt]
+
+/-- without a contig list the only `ValueError` of the checker is the ordering error; in
+    particular the offending record can be keyed (its positions are numbers) -/
+theorem Checker.add_valueError_no_contigs {c : Checker} {l : Loc} (hc : c.LastKeyed)
+    (hcs : c.contigs = []) (h : c.add l = .error .value) : c.OutOfOrder l := by
+  rcases ((Checker.add_valueError_iff hc).1 h).2 with ⟨_, hne, _⟩ | ho
+  · exact (hne hcs).elim
+  · exact ho
+
+theorem Checker.OutOfOrder.posOk {c : Checker} {l : Loc} (h : c.OutOfOrder l) :
+    l.hasCoords = true ∧ l.chrOk c.contigs ∧ l.start.posOk = true ∧ l.stop.posOk = true := by
+  obtain ⟨k, _, _, hk, _⟩ := h
+  obtain ⟨h0, hc, hs, he, _⟩ := mkKey_ok_iff'.1 hk
+  exact ⟨h0, hc, hs, he⟩
 
 end Model
